@@ -202,6 +202,7 @@ def install_print_hook():
                         "stopped": cp.stopped,
                     },
                     "quals": list(self.qualifiers),
+                    "target": (self._child_two().to_value(skip=skip) if len(self.children) and hasattr(self.children[0], "op") and self.children[0].op == "," else None),
                 }
             )
         return orig(self, skip=skip)
@@ -220,7 +221,10 @@ def make_case(seed, shard, i):
         rows.append([r.choice(["A1", "7", " p q", "x,y", "5.5"]), r.choice(["B1", "0", "b b", ""]), r.choice(["C", "c-c", "#z"]), r.choice(["D!", "dd", "9"])])
     gate = r.choice(["", "", '#b == "B1"', 'not(#b == "B1")'])
     target = r.choice([None, None, "audit"])
-    return {"chunks": chunks, "arr": arr, "qual": qual, "rows": rows, "gate": gate, "target": target}
+    # an earlier print on the same line that also resolves $.csvpath references, then a component that changes run
+    # state (fail()) before the print under test: "the value current at that point of that line"
+    prelude = r.random() < 0.3
+    return {"chunks": chunks, "arr": arr, "qual": qual, "rows": rows, "gate": gate, "target": target, "prelude": prelude}
 
 
 def run_case(case, agg):
@@ -234,7 +238,8 @@ def run_case(case, agg):
     target = case.get("target")
     tgt = f', "{target}"' if target else ""
     stream = target or "default"
-    prog = f'~ owner: team-a note: v1 id: pr1 ~ $pr.csv[1*][@x = #a @n = count_lines() @t.k = #d @z.k = mod(count_lines(), 2) @z.b = equals(#a, "A1") @z.e = #b push("st", #b) push("st", #a) {pq}("{tmpl}"{tgt}) {gate}]'
+    pre = 'print("at $.csvpath.line_number: $.csvpath.valid $.csvpath.count_matches", "pre") #2 == "C" -> fail() ' if case.get("prelude") else ""
+    prog = f'~ owner: team-a note: v1 id: pr1 ~ $pr.csv[1*][@x = #a @n = count_lines() @t.k = #d @z.k = mod(count_lines(), 2) @z.b = equals(#a, "A1") @z.e = #b push("st", #b) push("st", #a) {pre}{pq}("{tmpl}"{tgt}) {gate}]'
     c, cap = env.new_csvpath(["collect", "print"])
     cap2 = env.CapturePrinter()
     c.add_printer(cap2)
@@ -248,6 +253,7 @@ def run_case(case, agg):
                 return "exception", {"program": prog, "exc": f"{type(e).__name__}: {str(e)[:300]}"}
     finally:
         _SNAPS["on"] = None
+    snaps = [s_ for s_ in snaps if s_.get("target") != "pre"]
     agg.count("print_snapshots", len(snaps))
     w = {"program": prog, "template": tmpl, "chunks": chunks, "arrangement": case["arr"]}
     if c.errors:
@@ -262,8 +268,8 @@ def run_case(case, agg):
     except (KeyError, IndexError, ValueError):
         return "undecided", None
     got = [s for (n_, s) in cap.named if n_ == stream]
-    if [x for x in cap.named if x[0] != stream]:
-        w["other_streams"] = [x for x in cap.named if x[0] != stream][:3]
+    if [x for x in cap.named if x[0] not in (stream, "pre")]:
+        w["other_streams"] = [x for x in cap.named if x[0] not in (stream, "pre")][:3]
         return "printed-to-wrong-stream", w
     if got != [s for (n_, s) in cap2.named if n_ == stream]:
         w["printer1"] = got[:3]
@@ -302,7 +308,7 @@ def run_case(case, agg):
 
 def shape_of(case):
     kinds = "".join("T" if c[0] == "text" else ("." if c[0] == "dot" else "R" + c[1][0] + ("k" if c[3] else "")) for c in case["chunks"])
-    return f"{case['arr']}|{kinds}|{case['qual']}|{bool(case['gate'])}|{case.get('target')}"
+    return f"{case['arr']}|{kinds}|{case['qual']}|{bool(case['gate'])}|{case.get('target')}|{case.get('prelude')}"
 
 
 def run_one(case, agg):
